@@ -35,7 +35,7 @@ func init() {
 		Real:       []string{"common/db/table Table / Query / JoinTable / Count", "common/db KVDBList + ListHelper", "common/db LocalDB (half of the runs: table over a LocalDB, deletes become tombstones)", "common/db GoMemDB", "util.DelDupKey"},
 		Stub:       []string{"RowMeta adapters for protodata.Game / GameAddr (the user-supplied part of the table API)", "the caller that applies the KVs returned by Save (nil value = delete)"},
 		FaultKinds: []string{"rebuild_table_object"},
-		Rule:       "one case = one generated history of Add/Replace/Update/Del/DelRow/Save/rebuild on a plain or a join table over a 5-key space, checked against a pk->row model at every Add and after every save; distinct = distinct scenario digest; non-trivial = at least one save that flushes >= 2 buffered operations on one primary key",
+		Rule:       "one case = one generated history of Add/Replace/Update/Del/DelRow/Save/rebuild on a plain or a join table over a 5-key space (join runs: 70 % STRICT never generate the join shapes recorded as known defects, 30 % OPEN generate everything and attribute through the signature), checked against a pk->row model at every Add and after every save; distinct = distinct scenario digest; non-trivial = at least one save that flushes >= 2 buffered operations on one primary key",
 		Nontrivial: func(sc *simrt.Scenario, r *simrt.Result) bool { return r.Probes["save_with_multi_op_key"] > 0 },
 	})
 }
@@ -56,6 +56,11 @@ func (c10) Generate(prop string, r *simrt.RNG, tier string, run int) *simrt.Scen
 	join := r.Chance(2, 5)
 	if join {
 		sc.Knobs["join"] = 1
+		// OPEN runs (30 %) generate everything, including the join shapes recorded as
+		// known defects; STRICT runs never produce those shapes (see knownShape)
+		if r.Chance(3, 10) {
+			sc.Knobs["open"] = 1
+		}
 	}
 	if r.Chance(1, 2) {
 		sc.Knobs["localdb"] = 1
@@ -166,7 +171,21 @@ func (t *c10tab) pendingSig(pk string) string {
 	if _, ok := t.saved[pk]; ok {
 		p = "P:" // the row was persisted when the window started
 	}
-	return p + strings.Join(t.pending[pk], ",")
+	// shape, not length: the set of adjacent transitions of the (collapsed)
+	// effective-op sequence, e.g. "P:upd>del" or "P:del>add+upd>del"
+	seq := t.pending[pk]
+	switch len(seq) {
+	case 0:
+		return p + "-"
+	case 1:
+		return p + seq[0]
+	}
+	var tr []string
+	for i := 1; i < len(seq); i++ {
+		tr = append(tr, seq[i-1]+">"+seq[i])
+	}
+	sort.Strings(tr)
+	return p + strings.Join(uniqStrings(tr), "+")
 }
 
 func sortedKeys(m map[string]c10row) []string {
@@ -188,6 +207,118 @@ type c10env struct {
 	right   *table.Table
 	jt      *table.JoinTable
 	L, R    *c10tab
+	open    bool
+	// the current save window (since the last save / rebuild)
+	winL, winR map[string]bool            // left / right primary keys with accepted ops
+	winFks     map[string]map[string]bool // left pk -> right pks it referenced inside the window
+}
+
+func (e *c10env) resetWindow() {
+	e.winL, e.winR, e.winFks = map[string]bool{}, map[string]bool{}, map[string]map[string]bool{}
+}
+
+// joinedFks lists every right row the left row pk is or was joined to in the
+// current window: the persisted reference, the references it had inside the
+// window, the current one, and (optionally) the one an op is about to set.
+func (e *c10env) joinedFks(pk, extra string) []string {
+	set := map[string]bool{}
+	for f := range e.winFks[pk] {
+		set[f] = true
+	}
+	if r, ok := e.L.saved[pk]; ok {
+		set[r.f1] = true
+	}
+	if r, ok := e.L.cur[pk]; ok {
+		set[r.f1] = true
+	}
+	if extra != "" {
+		set[extra] = true
+	}
+	out := make([]string, 0, len(set))
+	for f := range set {
+		out = append(out, f)
+	}
+	sort.Strings(out)
+	return out
+}
+
+// knownShape names the join shapes that are recorded as known defects of the
+// join table (known_findings.json): a change of a left row's foreign key inside
+// a window, and a persisted left row AND a right row it is joined to both
+// changed/deleted inside one window. A left row that did not exist when the
+// window started is not part of the second shape (its join records are all
+// created by this save). STRICT runs never generate these shapes; OPEN runs
+// attribute join violations to them through the signature.
+func (e *c10env) knownShape(pk string, fks []string, leftTouched bool) string {
+	var shapes []string
+	if len(fks) >= 2 {
+		shapes = append(shapes, "fkchange")
+	}
+	if _, persisted := e.L.saved[pk]; persisted && leftTouched {
+		for _, f := range fks {
+			if e.winR[f] {
+				shapes = append(shapes, "both-sides")
+				break
+			}
+		}
+	}
+	return strings.Join(shapes, "+")
+}
+
+// joinSig is the signature part of a join violation about left row pk. Only a
+// violation that coincides with a known shape gets the "...left/...;right/..."
+// form that known_findings.json matches.
+func (e *c10env) joinSig(pk string) string {
+	l, ok := e.L.cur[pk]
+	if !ok {
+		l, ok = e.L.saved[pk]
+	}
+	rp := "-"
+	if ok {
+		rp = e.R.pendingSig(l.f1)
+	}
+	lp := e.L.pendingSig(pk)
+	if shape := e.knownShape(pk, e.joinedFks(pk, ""), e.winL[pk]); shape != "" {
+		return shape + "/left/" + lp + ";right/" + rp
+	}
+	return "no-known-shape/L=" + lp + "|R=" + rp
+}
+
+// saveSig is the signature of a failed Save.
+func (e *c10env) saveSig() string {
+	var ls, rs, shapes []string
+	for _, pk := range sortedBoolKeys(e.winL) {
+		ls = append(ls, e.L.pendingSig(pk))
+		if sh := e.knownShape(pk, e.joinedFks(pk, ""), true); sh != "" {
+			shapes = append(shapes, sh)
+		}
+	}
+	for _, pk := range sortedBoolKeys(e.winR) {
+		rs = append(rs, e.R.pendingSig(pk))
+	}
+	sort.Strings(ls)
+	sort.Strings(rs)
+	sort.Strings(shapes)
+	l, r := strings.Join(uniqStrings(ls), ","), strings.Join(uniqStrings(rs), ",")
+	if l == "" {
+		l = "-"
+	}
+	if r == "" {
+		r = "-"
+	}
+	if len(shapes) > 0 {
+		return strings.Join(uniqStrings(shapes), ",") + "/left/" + l + ";right/" + r
+	}
+	return "no-known-shape/L=" + l + "|R=" + r
+}
+
+func sortedBoolKeys(m map[string]bool) []string {
+	ks := make([]string, 0, len(m))
+	for k := range m {
+		ks = append(ks, k)
+	}
+	sort.Strings(ks)
+	return ks
 }
 
 const (
@@ -242,7 +373,8 @@ func rightMsg(pk string, r c10row) *protodata.Game {
 
 func (c10) Execute(t *testing.T, ctx *simrt.Ctx) *simrt.Violation {
 	sc := ctx.Sc
-	e := &c10env{ctx: ctx, join: sc.Knob("join", 0) == 1, localdb: sc.Knob("localdb", 0) == 1, L: newC10tab(), R: newC10tab()}
+	e := &c10env{ctx: ctx, join: sc.Knob("join", 0) == 1, localdb: sc.Knob("localdb", 0) == 1, open: sc.Knob("open", 0) == 1, L: newC10tab(), R: newC10tab()}
+	e.resetWindow()
 	e.db = dbm.NewDB("kv", "memdb", "", 16)
 	defer e.db.Close()
 	if e.localdb {
@@ -275,6 +407,7 @@ func (c10) Execute(t *testing.T, ctx *simrt.Ctx) *simrt.Violation {
 				tb.pending = map[string][]string{}
 				tb.nops = map[string]int{}
 			}
+			e.resetWindow()
 		}
 	}
 	// every history ends with a save
@@ -342,6 +475,32 @@ func (e *c10env) rowOp(op *simrt.Op) *simrt.Violation {
 		if !e.refOK(L2, R2) {
 			ctx.Probe("op_skipped_dangling_reference")
 			return nil
+		}
+		if !e.open {
+			// STRICT: never produce a join shape that is a recorded known defect
+			skip := false
+			if isRight {
+				save := e.winR[pk]
+				e.winR[pk] = true
+				for _, lp := range sortedBoolKeys(e.winL) {
+					if e.knownShape(lp, e.joinedFks(lp, ""), true) != "" {
+						skip = true
+					}
+				}
+				if !save {
+					delete(e.winR, pk)
+				}
+			} else {
+				newfk := ""
+				if op.K == "replace" || op.K == "update" || (op.K == "add" && !present) {
+					newfk = row.f1
+				}
+				skip = e.knownShape(pk, e.joinedFks(pk, newfk), true) != ""
+			}
+			if skip {
+				ctx.Probe("strict_skipped_known_join_shape")
+				return nil
+			}
 		}
 	}
 	pend := tb.pendingSig(pk)
@@ -425,6 +584,20 @@ func (e *c10env) rowOp(op *simrt.Op) *simrt.Violation {
 		tb.pending[pk] = append(tb.pending[pk], eff)
 	}
 	tb.nops[pk]++
+	if isRight {
+		e.winR[pk] = true
+	} else {
+		if e.winFks[pk] == nil {
+			e.winFks[pk] = map[string]bool{}
+		}
+		for _, f := range e.joinedFks(pk, "") { // includes the reference just written
+			e.winFks[pk][f] = true
+		}
+		if r, ok := e.L.saved[pk]; ok {
+			e.winFks[pk][r.f1] = true
+		}
+		e.winL[pk] = true
+	}
 	return nil
 }
 
@@ -449,7 +622,7 @@ func (e *c10env) save() *simrt.Violation {
 		kvs, err = e.left.Save()
 	}
 	if err != nil {
-		return ctx.Violate("save-failed", e.pendSummary(), "Save returned %v; pending operations: %s", err, e.pendSummary())
+		return ctx.Violate("save-failed", e.saveSig(), "Save returned %v; pending operations: %s", err, e.pendSummary())
 	}
 	e.apply(kvs)
 	ctx.Logf("save %d kvs", len(kvs))
@@ -472,6 +645,7 @@ func (e *c10env) save() *simrt.Violation {
 		tb.pending = map[string][]string{}
 		tb.nops = map[string]int{}
 	}
+	e.resetWindow()
 	ctx.State(simrt.DigestOf(fmt.Sprint(sortedKeys(e.L.cur), e.L.cur, sortedKeys(e.R.cur), e.R.cur)))
 	return nil
 }
@@ -493,6 +667,9 @@ func (e *c10env) pendSummary() string {
 	}
 	// the signature keeps the shapes, not the keys
 	sort.Strings(parts)
+	if len(parts) == 0 {
+		return "no-pending-ops"
+	}
 	return strings.Join(uniqStrings(parts), ";")
 }
 
@@ -726,17 +903,7 @@ func (e *c10env) verifyJoin() *simrt.Violation {
 		}
 		want[pk] = jrow{l.f2, r.f1}
 	}
-	pendOf := func(pk string) string {
-		s := "left/" + e.L.pendingSig(pk)
-		l, ok := e.L.cur[pk]
-		if !ok {
-			l, ok = e.L.saved[pk]
-		}
-		if ok {
-			s += ";right/" + e.R.pendingSig(l.f1)
-		}
-		return s
-	}
+	pendOf := e.joinSig
 	// stored join index records
 	base := c10Prefix + "-" + c10LName + "#" + c10RName + "-m-"
 	wantIdx := map[string]string{}
